@@ -1,6 +1,7 @@
 import RtcVerif.Model.C14
 import RtcVerif.Proofs.NumOrder
 import Mathlib.Order.Lattice
+import Mathlib.Data.List.Nodup
 /-! Helper lemmas for C14. -/
 namespace RtcVerif.C14
 open RtcVerif
@@ -15,6 +16,48 @@ theorem eabs_nonneg (x : EVal) : EVal.fin 0 ≤ eabs x := by
     · rename_i h; exact le_of_lt (by simpa using neg_pos.2 h)
     · rename_i h; exact not_lt.1 h
 
+/-- the accumulation loop of `__init__` (append the name when the role test holds) is a filter -/
+theorem foldl_collect (r : InputRec → Role) (tag : Role) (l : List InputRec) (acc : List String) :
+    l.foldl (fun acc i => if r i = tag then acc ++ [i.name] else acc) acc
+      = acc ++ (l.filter (fun i => r i = tag)).map (·.name) := by
+  induction l generalizing acc with
+  | nil => simp
+  | cons a t ih =>
+    simp only [List.foldl_cons, ih]
+    by_cases h : r a = tag <;> simp [h]
+
+theorem mem_roleListOf {r : Role} {inputs : List InputRec} {n : String} :
+    n ∈ roleListOf r inputs ↔ ∃ i ∈ inputs, i.role = r ∧ i.name = n := by
+  simp [roleListOf, List.mem_map, List.mem_filter, and_assoc]
+
+/-- with pairwise distinct input names a name is listed as often as it has the role: 0 or 1 times -/
+theorem count_roleListOf (r : Role) (inputs : List InputRec) (hnd : (inputs.map (·.name)).Nodup)
+    (i : InputRec) (hi : i ∈ inputs) :
+    (roleListOf r inputs).count i.name = if i.role = r then 1 else 0 := by
+  induction inputs with
+  | nil => cases hi
+  | cons a t ih =>
+    simp only [List.map_cons, List.nodup_cons, List.mem_map, not_exists, not_and] at hnd
+    obtain ⟨hna, hnt⟩ := hnd
+    have hnot : ∀ r', (roleListOf r' t).count a.name = 0 := by
+      intro r'
+      rw [List.count_eq_zero]
+      intro hm
+      obtain ⟨j, hj, _, hjn⟩ := mem_roleListOf.1 hm
+      exact hna j hj hjn
+    rcases List.mem_cons.1 hi with rfl | hit
+    · by_cases h : i.role = r
+      · simp [roleListOf, h] at hnot ⊢
+        simpa [roleListOf] using hnot r
+      · simp [roleListOf, h] at hnot ⊢
+        simpa [roleListOf] using hnot r
+    · have hne : a.name ≠ i.name := fun e => hna i hit e.symm
+      have := ih hnt hit
+      by_cases h : a.role = r
+      · simp only [roleListOf, List.filter_cons, h, decide_true, if_true, List.map_cons] at this ⊢
+        rw [List.count_cons_of_ne hne]; exact this
+      · simp only [roleListOf, List.filter_cons, h, decide_false, Bool.false_eq_true, if_false] at this ⊢
+        exact this
 
 end RtcVerif.C14
 
